@@ -209,7 +209,11 @@ type gate struct {
 }
 
 func (g *gate) park() {
-	g.once1.Do(func() { close(g.parked) })
+	first := false
+	g.once1.Do(func() { first = true; close(g.parked) })
+	if !first {
+		return // only the first invocation parks (a second one may come from the goroutine that is to release the gate)
+	}
 	select {
 	case <-g.release:
 	case <-time.After(2 * time.Second):
